@@ -24,6 +24,7 @@
 static const char *prefix = NULL;
 static size_t prefix_len = 0;
 static long crash_at = -1;
+static long fail_at = -1; /* this call (a write) fails with ENOSPC instead of being performed */
 static long counter = 0;
 static int trace_fd = -1;
 static int inited = 0;
@@ -44,6 +45,8 @@ static void init(void) {
     if (prefix) prefix_len = strlen(prefix);
     const char *c = getenv("RIPV_CRASH_AT");
     if (c && *c) crash_at = atol(c);
+    const char *f = getenv("RIPV_FAIL_AT");
+    if (f && *f) fail_at = atol(f);
     const char *t = getenv("RIPV_TRACE");
     if (t && *t) trace_fd = real_openat(AT_FDCWD, t, O_WRONLY | O_CREAT | O_APPEND, 0644);
 }
@@ -72,7 +75,7 @@ static int fd_under_prefix(int fd, char *out, size_t n) {
 #include <sys/syscall.h>
 static int raw_exists(const char *path) { return syscall(SYS_faccessat, AT_FDCWD, path, F_OK) == 0; }
 
-static void hit(const char *op, const char *path) {
+static int hit(const char *op, const char *path) {
     SCHED(op, path);
     long k = __sync_fetch_and_add(&counter, 1);
     if (trace_fd >= 0) {
@@ -81,12 +84,13 @@ static void hit(const char *op, const char *path) {
         if (n > 0) real_write(trace_fd, line, (size_t)n);
     }
     if (crash_at >= 0 && k == crash_at) _exit(77);
+    return fail_at >= 0 && k == fail_at;
 }
 
 ssize_t write(int fd, const void *buf, size_t count) {
     init();
     char p[4096];
-    if (fd > 2 && fd != trace_fd && fd_under_prefix(fd, p, sizeof p)) hit("write", p);
+    if (fd > 2 && fd != trace_fd && fd_under_prefix(fd, p, sizeof p) && hit("write", p)) { errno = ENOSPC; return -1; }
     return real_write(fd, buf, count);
 }
 
@@ -95,7 +99,7 @@ ssize_t writev(int fd, const struct iovec *iov, int iovcnt) {
     static ssize_t (*real)(int, const struct iovec *, int);
     if (!real) real = dlsym(RTLD_NEXT, "writev");
     char p[4096];
-    if (fd > 2 && fd_under_prefix(fd, p, sizeof p)) hit("writev", p);
+    if (fd > 2 && fd_under_prefix(fd, p, sizeof p) && hit("writev", p)) { errno = ENOSPC; return -1; }
     return real(fd, iov, iovcnt);
 }
 
@@ -104,7 +108,7 @@ ssize_t pwrite(int fd, const void *buf, size_t count, off_t off) {
     static ssize_t (*real)(int, const void *, size_t, off_t);
     if (!real) real = dlsym(RTLD_NEXT, "pwrite");
     char p[4096];
-    if (fd_under_prefix(fd, p, sizeof p)) hit("pwrite", p);
+    if (fd_under_prefix(fd, p, sizeof p) && hit("pwrite", p)) { errno = ENOSPC; return -1; }
     return real(fd, buf, count, off);
 }
 
@@ -113,7 +117,7 @@ ssize_t pwrite64(int fd, const void *buf, size_t count, off64_t off) {
     static ssize_t (*real)(int, const void *, size_t, off64_t);
     if (!real) real = dlsym(RTLD_NEXT, "pwrite64");
     char p[4096];
-    if (fd_under_prefix(fd, p, sizeof p)) hit("pwrite64", p);
+    if (fd_under_prefix(fd, p, sizeof p) && hit("pwrite64", p)) { errno = ENOSPC; return -1; }
     return real(fd, buf, count, off);
 }
 
